@@ -54,7 +54,17 @@ def act_setup(ctx):
         return Rec("ArgumentParser", attrs={"_actions": []}, methods={
             "parse_object": lambda c2, s2, a2, k2: (c2.event("validate-init_args", dict(a2[0].attrs["store"]) if isinstance(a2[0], Rec) else a2[0], dict(k2)), validated)[1],
             "instantiate_classes": lambda c2, s2, a2, k2: (c2.event("instantiate-nested", a2[0]), instantiated)[1],
-            "dump": lambda c2, s2, a2, k2: "a: 1"})
+            "dump": lambda c2, s2, a2, k2: (c2.event("nested-dump", a2[0], dict(k2)), dumped_text)[1]})
+
+    dumped_text = z3.String("text-dumped-by-the-class-parser")
+    loaded = Rec("mapping loaded from the dumped text")
+    caller_dump_kwargs = {"skip_none": z3.Bool("dump.skip_none"), "skip_validation": z3.Bool("dump.skip_validation"), "skip_link_targets": z3.Bool("dump.skip_link_targets")}
+
+    def load_value(c, a, k):
+        if k:
+            return a[0]  # load_value(text, simple_types=True) on a dict_kwargs string
+        c.event("load", a[0])
+        return loaded
 
     def instantiator(c, a, k):
         c.event("construct", a[0], a[1:], dict(k))
@@ -67,7 +77,7 @@ def act_setup(ctx):
         "discard_init_args_on_class_path_change": lambda c, a, k: c.event("discard-check", a[1], a[2]),
         "Namespace": lambda c, a, k: ns({}, "empty"),
         "get_class_instantiator": lambda c, a, k: Rec("instantiator", methods={"__call__": lambda c2, s2, a2, k2: instantiator(c2, a2, k2)}),
-        "sub_defaults.get": lambda c, a, k: False, "dump_kwargs.get": lambda c, a, k: {}, "load_value": lambda c, a, k: {"a": 1} if not k else a[0],
+        "sub_defaults.get": lambda c, a, k: False, "dump_kwargs.get": lambda c, a, k: dict(caller_dump_kwargs), "load_value": load_value,
         "_find_action": lambda c, a, k: Rec("Action") if a[1] == "known" else None,
         "get_loader_exceptions": lambda c, a, k: (),
     }
@@ -84,7 +94,7 @@ def act_setup(ctx):
     env = {"value": value, "serialize": mode == "serialize", "instantiate_classes": mode.startswith("instantiate"), "sub_add_kwargs": sub_add_kwargs, "prev_val": prev, "skip_args": 0,
            "partial_classes": mode == "instantiate-partial"}
     return Setup(env=env, calls=calls, consts=consts, symcall=symcall, cms={"suppress": suppress_cm()},
-                 data=dict(init_given=bool(init_store), mode=mode, dk_kind=dk_kind, prev_kind=prev_kind, value=value, store=store, init_store=init_store, sub_cls=sub_cls, validated=validated, instantiated=instantiated,
+                 data=dict(dumped_text=dumped_text, loaded=loaded, caller_dump_kwargs=caller_dump_kwargs, init_args=init_args, init_given=bool(init_store), mode=mode, dk_kind=dk_kind, prev_kind=prev_kind, value=value, store=store, init_store=init_store, sub_cls=sub_cls, validated=validated, instantiated=instantiated,
                            instance=instance, a_val=a_val, known_val=known_val, extra_val=extra_val, prev_extra=prev_extra))
 
 
@@ -109,6 +119,14 @@ def act_post(ctx, st, result):
             ctx.oblige("post", "unknown-dict_kwargs-stay-dict_kwargs(merged over the previous ones only for the same class)" + tag, isinstance(got, dict) and set(got) == set(want_dk) and all(got[k] is want_dk[k] for k in want_dk))
         else:
             ctx.oblige("post", "no-dict_kwargs-given=>none-stored" + tag, "dict_kwargs" not in d["store"])
+    elif d["mode"] == "serialize":
+        dumps = [e for e in ev if e[0] == "nested-dump"]
+        if d["init_given"]:
+            ok = len(dumps) == 1 and dumps[0][1] is d["init_args"] and set(dumps[0][2]) == set(d["caller_dump_kwargs"]) and all(dumps[0][2][k] is v for k, v in d["caller_dump_kwargs"].items())
+            ctx.oblige("post", "init_args-are-dumped-by-that-class's-parser-with-the-caller's-dump-settings(not reset for nested specs)" + tag, ok)
+            ctx.oblige("post", "the-serialised-init_args-are-what-the-loader-reads-from-that-dump" + tag, d["store"].get("init_args") is d["loaded"] and [e for e in ev if e[0] == "load"] == [("load", d["dumped_text"])])
+        else:
+            ctx.oblige("post", "no-init_args=>nothing-to-dump" + tag, not dumps and result is d["value"])
     elif d["mode"] in ("instantiate", "instantiate-partial"):
         nested = [e for e in ev if e[0] == "instantiate-nested"]
         cons = [e for e in ev if e[0] == "construct"]
